@@ -178,9 +178,33 @@ def poke_accessors(bank):
             pass
 
 
+def build_via_config(cfg):
+    """the same bank through the documented configuration route: a JSON-style mapping handed to
+    alias_factory_subclass_from_arg (what the command-line tools and nested computer configs do)"""
+    import json
+    from pydrobert.speech import filters
+    from pydrobert.speech.alias import alias_factory_subclass_from_arg
+
+    k = cfg["kind"]
+    m = dict(name={"tri": "tri", "fbank": "fbank", "gabor": "gabor", "gammatone": "tonebank"}[k], num_filts=cfg["num_filts"],
+             high_hz=cfg["high"], low_hz=cfg["low"], sampling_rate=cfg["rate"])
+    if k != "fbank":
+        sc = cfg["scale"]
+        m["scaling_function"] = sc["name"] if set(sc) == {"name"} else dict(sc)
+    if k in ("tri", "fbank"):
+        m["analytic"] = cfg["analytic"]
+    if k in ("gabor", "gammatone"):
+        m.update(scale_l2_norm=cfg["l2"], erb=cfg["erb"])
+    if k == "gammatone":
+        m.update(order=cfg["order"], max_centered=cfg["max_centered"])
+    return alias_factory_subclass_from_arg(filters.LinearFilterBank, json.loads(json.dumps(m)))
+
+
 def build(cfg):
     from pydrobert.speech import filters
 
+    if cfg.get("via_config"):
+        return build_via_config(cfg)
     k = cfg["kind"]
     kw = dict(num_filts=cfg["num_filts"], high_hz=cfg["high"], low_hz=cfg["low"], sampling_rate=cfg["rate"])
     if k == "tri":
@@ -288,6 +312,13 @@ CORPUS = [
     dict(kind="gammatone", scale=dict(name="octave", low_hz=55.0), scale_prev=dict(low_hz=20.0), num_filts=6, high=3800.0, low=60.0, rate=8000, l2=False, erb=False, order=4, max_centered=False),
     dict(kind="tri", scale=dict(name="linear", low_hz=100.0, slope_hz=2.5), scale_prev=dict(low_hz=0.0, slope_hz=1.0), num_filts=7, high=3000.0, low=100.0, rate=8000, analytic=True),
     dict(kind="gabor", scale=dict(name="linear", low_hz=0.0, slope_hz=0.5), scale_prev=dict(low_hz=50.0, slope_hz=3.0), num_filts=5, high=3500.0, low=20.0, rate=8000, l2=False, erb=True),
+    # the configuration route (a mapping given to alias_factory_subclass_from_arg), with values that are falsy but meaningful
+    # (low_hz 0, flags False, a linear scale anchored at 0 Hz)
+    dict(kind="tri", scale=dict(name="mel"), num_filts=10, high=4000.0, low=0.0, rate=8000, analytic=False, via_config=True),
+    dict(kind="fbank", scale=dict(name="mel"), num_filts=8, high=4000.0, low=0.0, rate=8000, analytic=False, via_config=True),
+    dict(kind="gabor", scale=dict(name="linear", low_hz=0.0, slope_hz=1.0), num_filts=6, high=3500.0, low=0.0, rate=8000, l2=False, erb=False, via_config=True),
+    dict(kind="gammatone", scale=dict(name="bark"), num_filts=6, high=3800.0, low=0.0, rate=8000, l2=False, erb=False, order=4, max_centered=False, via_config=True),
+    dict(kind="tri", scale=dict(name="linear", low_hz=0.0, slope_hz=2.0), num_filts=5, high=3000.0, low=100.0, rate=8000, analytic=True, via_config=True),
     # ... and banks whose accessor results were modified in place by the caller before anything else is asked of them
     dict(kind="tri", scale=dict(name="mel"), num_filts=6, high=3800.0, low=100.0, rate=8000, analytic=False, poke_accessors=True),
     dict(kind="tri", scale=dict(name="bark"), num_filts=9, high=None, low=20.0, rate=16000, analytic=True, poke_accessors=True),
@@ -790,7 +821,7 @@ def replay(rp):
     case = dict(rp.get("case") or {})
     print(common.canon(case))
     keys = ("kind", "scale", "num_filts", "high", "low", "rate", "analytic", "l2", "erb", "order", "max_centered",
-            "scale_prev", "poke_accessors")
+            "scale_prev", "poke_accessors", "via_config")
     cfg = {k: case[k] for k in keys if k in case}
     if "kind" not in cfg:
         print("not a configuration replay:", rp.get("kind"), rp.get("broken", "")[:3] if isinstance(rp.get("broken"), list) else "")
